@@ -127,6 +127,7 @@ func c18Run(e *Env, keepalive bool) {
 		}
 	}
 	closed := func() bool { return w.API.Context().Err() != nil }
+	slowPending, sinceAdvance := false, 0
 	nonce := 0
 	pongForCurrent := false
 	var streamTail []byte // stream transports: the rest of a frame whose head arrived with the previous read
@@ -147,6 +148,7 @@ func c18Run(e *Env, keepalive bool) {
 			it.Raw = raw
 		}
 		e.Logf("peer->ep %s", label)
+		sinceAdvance++
 		w.Emit(it, false)
 		lastRx = e.Now()
 		switch reset {
@@ -162,39 +164,46 @@ func c18Run(e *Env, keepalive bool) {
 
 	for step := 0; step < 60 && e.Budget() && !closed(); step++ {
 		var evs []Event
-		// a message is received
-		evs = append(evs, Event{Label: "message", W: 3, Do: func() {
-			nonce++
-			e.Fault("msg.received")
-			m := &WMsg{Type: TNON, Code: 1, MID: w.NextPeerMID(), Token: []byte{0x55, byte(nonce)}, Opts: []WOpt{{Num: OptURIPath, Val: []byte("m")}}}
-			label := fmt.Sprintf("message #%d", nonce)
-			// whatever the peer sends is a sign of life: a request, a ping of its own, a stray acknowledgement or reset
-			switch t.Weighted(4, 2, 1, 1, 2) {
-			case 4:
-				e.Probe("received.requestWithSlowHandler")
-				m.Opts = []WOpt{{Num: OptURIPath, Val: []byte("slow")}}
-				label = fmt.Sprintf("message #%d (its handler takes half a period)", nonce)
-			case 1:
-				e.Probe("received.peerPing")
-				if IsDatagram(tr) {
-					m, label = &WMsg{Type: TCON, Code: 0, MID: w.NextPeerMID()}, fmt.Sprintf("ping of the peer #%d", nonce)
-				} else {
-					m, label = &WMsg{Code: 0xe2, Token: []byte{0x56, byte(nonce)}}, fmt.Sprintf("ping of the peer #%d", nonce)
+		// a message is received (while a slow handler occupies the reader, no more messages than the receive queue takes:
+		// a message the library has not read from the socket yet is not a received message, and the model could not
+		// know when it will be)
+		if !slowPending || sinceAdvance < 10 {
+			evs = append(evs, Event{Label: "message", W: 3, Do: func() {
+				nonce++
+				e.Fault("msg.received")
+				m := &WMsg{Type: TNON, Code: 1, MID: w.NextPeerMID(), Token: []byte{0x55, byte(nonce)}, Opts: []WOpt{{Num: OptURIPath, Val: []byte("m")}}}
+				label := fmt.Sprintf("message #%d", nonce)
+				// whatever the peer sends is a sign of life: a request, a ping of its own, a stray acknowledgement or reset
+				switch t.Weighted(4, 2, 1, 1, 2) {
+				case 4:
+					if !slowPending { // (one at a time: the next time advance of at least half a period lets it finish)
+						slowPending = true
+						e.Probe("received.requestWithSlowHandler")
+						m.Opts = []WOpt{{Num: OptURIPath, Val: []byte("slow")}}
+						label = fmt.Sprintf("message #%d (its handler takes half a period)", nonce)
+					}
+				case 1:
+					e.Probe("received.peerPing")
+					if IsDatagram(tr) {
+						m, label = &WMsg{Type: TCON, Code: 0, MID: w.NextPeerMID()}, fmt.Sprintf("ping of the peer #%d", nonce)
+					} else {
+						m, label = &WMsg{Code: 0xe2, Token: []byte{0x56, byte(nonce)}}, fmt.Sprintf("ping of the peer #%d", nonce)
+					}
+				case 2:
+					if IsDatagram(tr) {
+						e.Probe("received.strayAck")
+						m, label = &WMsg{Type: TACK, Code: 0, MID: w.NextPeerMID()}, fmt.Sprintf("stray empty acknowledgement #%d", nonce)
+					}
+				case 3:
+					if IsDatagram(tr) {
+						e.Probe("received.strayReset")
+						m, label = &WMsg{Type: TRST, Code: 0, MID: w.NextPeerMID()}, fmt.Sprintf("stray reset #%d", nonce)
+					}
 				}
-			case 2:
-				if IsDatagram(tr) {
-					e.Probe("received.strayAck")
-					m, label = &WMsg{Type: TACK, Code: 0, MID: w.NextPeerMID()}, fmt.Sprintf("stray empty acknowledgement #%d", nonce)
-				}
-			case 3:
-				if IsDatagram(tr) {
-					e.Probe("received.strayReset")
-					m, label = &WMsg{Type: TRST, Code: 0, MID: w.NextPeerMID()}, fmt.Sprintf("stray reset #%d", nonce)
-				}
-			}
-			deliver(m, label, 1)
-		}})
-		if keepalive && len(pings) > 0 {
+				deliver(m, label, 1)
+			}})
+		}
+		if keepalive && len(pings) > 0 && (!slowPending || sinceAdvance < 10) {
 			evs = append(evs, Event{Label: "pong", W: 3, Do: func() {
 				p := pings[len(pings)-1]
 				e.Fault("pong.current")
@@ -241,6 +250,9 @@ func c18Run(e *Env, keepalive bool) {
 			}
 			if dt < 0 {
 				dt = 0
+			}
+			if dt >= period/2 {
+				slowPending, sinceAdvance = false, 0
 			}
 			e.Sleep(dt)
 			now := time.Now()
